@@ -911,6 +911,40 @@ def judge(line, ans):
     return out
 
 
+# ---------------------------------------------------------------------------------------------- shrinking a failing scenario
+ARITY = {"D": 1, "N": 3, "Ns": 3, "Z": 4, "B": 1, "Bs": 1, "F": 0, "L": 0, "I": 0, "C": 0, "P": 2, "Q": 3, "K": 2, "KR": 1, "E": 1,
+         "ED": 3, "G": 3, "X": 2, "J": 0, "T": 0}
+
+
+def split_ops(line):
+    toks = line.split()
+    ops, i = [], 0
+    while i < len(toks):
+        n = ARITY.get(toks[i])
+        if n is None:
+            return None
+        ops.append(toks[i:i + 1 + n])
+        i += 1 + n
+    return ops
+
+
+def shrink(line, still_fails, budget=120):
+    """Greedy one-operation-at-a-time reduction of a scenario while `still_fails(scenario)` holds (delta debugging with
+    granularity 1, from the end: later operations rarely matter for an earlier failure).  Section ids stay meaningful because a
+    removed N is only accepted when the failure survives.  Returns the reduced scenario."""
+    ops = split_ops(line)
+    if ops is None:
+        return line
+    k = len(ops) - 1
+    while k >= 0 and budget > 0:
+        cand = ops[:k] + ops[k + 1:]
+        budget -= 1
+        if cand and still_fails(" ".join(" ".join(o) for o in cand)):
+            ops = cand
+        k -= 1
+    return " ".join(" ".join(o) for o in ops)
+
+
 # ---------------------------------------------------------------------------------------------- translator (constants)
 GEN_NAME = "C10Consts.v"
 GEN_KEYS = ["max_name", "name_cells", "no_offset", "f_executable", "f_readonly", "f_zeroinit", "f_comment", "f_builtin", "f_implicit",
@@ -1052,6 +1086,7 @@ def run(ck):
                      {"scenario": rm[3], "detail": str(rm[:3]), "broken": "correspondence stream C10 (model driver died)"}, no_input=True)
         ri = rm = []
     disagreements = 0
+    shrinks_left = 6          # failing scenarios are reduced operation by operation (first occurrence of a key only)
     nontrivial = set()
     ops_total = 0
     judged = 0
@@ -1064,12 +1099,38 @@ def run(ck):
             js = [("C10/harness/unreadable-answer", "monitor could not interpret the implementation's answers (%s: %s)" % (type(ex).__name__, ex))]
         judged += 1
         for key, what in js:
-            ck.violation(key, what, {"scenario": sc, "impl": x, "model": y})
+            rp = {"scenario": sc, "impl": x, "model": y}
+            if shrinks_left > 0 and ck.match_finding(key) is None and not any(v["key"] == key for v in ck.violations):
+                shrinks_left -= 1
+
+                def fails(c, key=key):
+                    try:
+                        return any(k2 == key for k2, _ in judge(c, vlib.sh([impl], inp=c + "\n", timeout=60)[1].strip()))
+                    except Exception:
+                        return False
+                small = shrink(sc, fails)
+                if small != sc:
+                    rp["scenario_as_generated"] = sc
+                    rp["scenario"] = small
+                    rp["impl"] = vlib.sh([impl], inp=small + "\n", timeout=60)[1].strip()
+                    rp["model"] = vlib.sh([model] + margs, inp=small + "\n", timeout=60)[1].strip()
+                    what += " [reduced from %d to %d operations]" % (len(split_ops(sc) or []), len(split_ops(small) or []))
+            ck.violation(key, what, rp)
         if " F:ok " in x + " " and x.count(",") > 10:
             nontrivial.add(sc)
         if x != y:
             disagreements += 1
             if all(ck.match_finding(k) is not None for k, _ in js):      # nothing NEW explains the difference
+                if shrinks_left > 0 and not any(v["key"].startswith("C10/correspondence") for v in ck.violations):
+                    shrinks_left -= 1
+
+                    def differs(c):
+                        return vlib.sh([impl], inp=c + "\n", timeout=60)[1].strip() != vlib.sh([model] + margs, inp=c + "\n", timeout=60)[1].strip()
+                    small = shrink(sc, differs)
+                    if small != sc:
+                        sc_gen, sc = sc, small
+                        x = vlib.sh([impl], inp=sc + "\n", timeout=60)[1].strip()
+                        y = vlib.sh([model] + margs, inp=sc + "\n", timeout=60)[1].strip()
                 k, a, b = first_diff(x, y)
                 yp = vlib.sh([model, "--pinned"], inp=sc + "\n", timeout=120)[1].strip()
                 hint = ""
